@@ -38,11 +38,14 @@ Ok == Ev.res = "ok"
 ResOK(ri, rm) == Ok = ri \/ Ok = rm
 ResBad(ri) == Ok # ri
 
-Prev == Rec[l - 1].obs
+\* what the previous event observed (the initial store when the script has just started)
+AtStart == Rec[l - 1].ev = "reset"
+PrevNodeAt(n, v) == IF AtStart THEN [live |-> FALSE, labels |-> <<>>, p |-> None] ELSE Rec[l - 1].obs.nodeAt[n][v]
+PrevEdgeAt(e, v) == IF AtStart THEN [live |-> FALSE, p |-> None] ELSE Rec[l - 1].obs.edgeAt[e][v]
 \* C08 on the observations: reads at versions >= w are exactly what the previous event observed
 GcKeepsObserved(o, w) ==
-    /\ \A n \in NodeIds, v \in 1..curVer : v >= w => o.nodeAt[n][v] = Prev.nodeAt[n][v]
-    /\ \A e \in EdgeIds, v \in 1..curVer : v >= w => o.edgeAt[e][v] = Prev.edgeAt[e][v]
+    /\ \A n \in NodeIds, v \in 1..curVer : v >= w => o.nodeAt[n][v] = PrevNodeAt(n, v)
+    /\ \A e \in EdgeIds, v \in 1..curVer : v >= w => o.edgeAt[e][v] = PrevEdgeAt(e, v)
 
 TInit == MInit /\ TBInit
 ResetVars ==
